@@ -58,6 +58,20 @@ def norm(d):
 def valid(d):
     try: build(d); return True
     except (TypeError, ValueError, NotImplementedError, OverflowError): return False
+# directed part: array arguments decay to pointers, zero-size items, '[]' vs lengths
+for T in prims + [empty, int0]:
+    pT = B.new_pointer_type(T)
+    try:
+        variants = [B.new_function_type((a,), prims[0], False) for a in (pT, B.new_array_type(pT, 5), B.new_array_type(pT, None), B.new_array_type(pT, 0))]
+    except (TypeError, ValueError, NotImplementedError):
+        variants = []
+    if any(v is not variants[0] for v in variants):
+        bad.append('function types taking %r as pointer / array argument are %d different objects' % (T, len(set(map(id, variants)))))
+    arrs = [B.new_array_type(pT, n) for n in (None, 0, 1, 2, 3)]
+    if len(set(map(id, arrs))) != len(arrs):
+        bad.append('array types of different lengths over %r share a ctype object' % (T,))
+    if B.new_array_type(pT, 3) is not arrs[4] or B.new_array_type(pT, None) is not arrs[0]:
+        bad.append('rebuilding an array type over %r gives another object' % (T,))
 live = {}
 for step in range(4000):
     d = rand_desc()
